@@ -5,6 +5,7 @@ import (
 	"reflect"
 	"unsafe"
 
+	"github.com/goccy/go-json/internal/errors"
 	"github.com/goccy/go-json/internal/runtime"
 )
 
@@ -41,8 +42,13 @@ func (d *wrappedStringDecoder) DecodeStream(s *Stream, depth int64, p unsafe.Poi
 	}
 	b := make([]byte, len(bytes)+1)
 	copy(b, bytes)
-	if _, err := d.dec.Decode(&RuntimeContext{Buf: b, Option: s.Option}, 0, depth, p); err != nil {
+	end, err := d.dec.Decode(&RuntimeContext{Buf: b, Option: s.Option}, 0, depth, p)
+	if err != nil {
 		return err
+	}
+	if end != int64(len(bytes)) {
+		// the quoted text has to be the value and nothing else
+		return errors.ErrInvalidCharacter(b[end], "string-wrapped value", s.totalOffset())
 	}
 	return nil
 }
@@ -61,10 +67,15 @@ func (d *wrappedStringDecoder) Decode(ctx *RuntimeContext, cursor, depth int64, 
 	bytes = append(bytes, nul)
 	oldBuf := ctx.Buf
 	ctx.Buf = bytes
-	if _, err := d.dec.Decode(ctx, 0, depth, p); err != nil {
+	end, err := d.dec.Decode(ctx, 0, depth, p)
+	if err != nil {
 		return 0, err
 	}
 	ctx.Buf = oldBuf
+	if end != int64(len(bytes)-1) {
+		// the quoted text has to be the value and nothing else
+		return 0, errors.ErrInvalidCharacter(bytes[end], "string-wrapped value", c)
+	}
 	return c, nil
 }
 
